@@ -10,6 +10,10 @@
 //   x start configuration (interior lattice point x 26 directions | near-boundary tangent
 //     family | start ON a boundary reached by linear move + cross, optional set_dir)
 //   x requested step x subdivision k in {1,2,5}
+// charge = e-/e+ on the whole lattice; PLUS a sub-lattice (default options, radius indices 3..5,
+// every geometry, every non-ZHelix (stepper, field) with B != 0; quick: checkerboard half) for an
+// alpha (q = +2, m = 3727.379 MeV: |q| != 1, m != m_e) and a neutral massless particle (q = 0 in
+// B != 0: straight line); block ids q=a / q=0.
 // Fields: uniform along x / z / oblique (also with negative components) at 1 mT / 1 T / 100 T,
 // B = 0, UniformZField, RZMapField with uniform content, with smooth non-uniform content, and a
 // map that is SMALLER than the world (uniform inside, documented zero field outside).
@@ -59,7 +63,7 @@
 // signature:  driver:<mechanism>-step-and-state-disagree[<oracle signature>].  Everything else
 // in those option sets is reported under its real signature.
 //
-// Case ids:  block id  "g=<geom>;sf=<stepper:field>;q=<+|->;r=<ratio idx>;o=<options>"
+// Case ids:  block id  "g=<geom>;sf=<stepper:field>;q=<+|-|a|0>;r=<ratio idx>;o=<options>"
 //            full id   block id + ";c=<start cfg>;s=<step idx>;k=<k>"
 #include <algorithm>
 #include <cmath>
@@ -819,22 +823,27 @@ static std::vector<StartCfg> make_starts(Geo const& G, bool thorough)
 // PARTICLES
 //---------------------------------------------------------------------------//
 static constexpr double electron_mass = 0.5109989461;  // MeV
+static constexpr double alpha_mass = 3727.379;  // MeV
 
 struct Particles
 {
     std::shared_ptr<ParticleParams> params;
     CollectionStateStore<ParticleStateData, MemSpace::host> state;
-    ParticleId eminus, eplus;
+    ParticleId eminus, eplus, alpha, neutral;
     Particles()
     {
         using namespace units;
         ParticleParams::Input defs
             = {{"electron", pdg::electron(), MevMass{electron_mass}, ElementaryCharge{-1}, 0.0},
-               {"positron", pdg::positron(), MevMass{electron_mass}, ElementaryCharge{1}, 0.0}};
+               {"positron", pdg::positron(), MevMass{electron_mass}, ElementaryCharge{1}, 0.0},
+               {"alpha", pdg::alpha(), MevMass{alpha_mass}, ElementaryCharge{2}, 0.0},
+               {"gamma", pdg::gamma(), MevMass{0}, ElementaryCharge{0}, 0.0}};
         params = std::make_shared<ParticleParams>(std::move(defs));
         state = CollectionStateStore<ParticleStateData, MemSpace::host>(params->host_ref(), 1);
         eminus = params->find(pdg::electron());
         eplus = params->find(pdg::positron());
+        alpha = params->find(pdg::alpha());
+        neutral = params->find(pdg::gamma());
     }
     ParticleTrackView view() { return ParticleTrackView{params->host_ref(), state.ref(), TrackSlotId{0}}; }
 };
@@ -1559,6 +1568,11 @@ int main(int argc, char** argv)
     // block index space
     size_t const NG = geos.size(), NSF = sfs.size(), NQ = 2, NR = ratios.size(), NO = options.size();
     uint64_t const nblocks = uint64_t(NG) * NSF * NQ * NR * NO;
+    // Extra sub-lattice for |q| != 1 and m != m_e: an alpha (q = +2, m = 3727.379 MeV) and a neutral
+    // massless particle in B != 0 (production sends neutral tracks through the same propagator):
+    // geometry x (stepper, field) without ZHelix x radius indices 3..5 x default options.
+    size_t const NXS = 2, NXR = 3, XR0 = 3;
+    uint64_t const nextra = uint64_t(NG) * NSF * NXS * NXR;
 
     std::vector<std::vector<StartCfg>> starts;
     for (auto& g : geos)
@@ -1586,34 +1600,59 @@ int main(int argc, char** argv)
     char const* const only_filter = getenv("C08_ONLY");
     if (only_filter)
         R.cap_hit(std::string("C08_ONLY=") + only_filter + " (block filter: not the declared lattice)");
-    for (uint64_t bi = 0; bi < nblocks; ++bi)
+    for (uint64_t bi = 0; bi < nblocks + nextra; ++bi)
     {
-        if (!R.mine(bi))
+        bool const extra = bi >= nblocks;
+        // (the indices nblocks .. nblocks + 8 + NG - 1 belong to the side cases above)
+        if (!R.mine(extra ? bi + 8 + NG : bi))
             continue;
         if (R.expired())
             break;
         // geometry varies fastest so that a deadline cut never drops a whole geometry
-        uint64_t x = bi;
+        uint64_t x = extra ? bi - nblocks : bi;
         size_t ig = x % NG;
         x /= NG;
-        size_t io = x % NO;
-        x /= NO;
-        size_t ir = x % NR;
-        x /= NR;
-        size_t iq = x % NQ;
-        x /= NQ;
-        size_t isf = x;
+        size_t io = 0, ir, iq, isf;
+        if (!extra)
+        {
+            io = x % NO;
+            x /= NO;
+            ir = x % NR;
+            x /= NR;
+            iq = x % NQ;
+            x /= NQ;
+            isf = x;
+        }
+        else
+        {
+            ir = XR0 + x % NXR;
+            x /= NXR;
+            iq = 2 + x % NXS;
+            x /= NXS;
+            isf = x;
+        }
         Geo& G = *geos[ig];
         SF const& sf = sfs[isf];
         OptSet const& O = options[io];
-        int const q = iq == 0 ? -1 : +1;
+        // species: e-, e+ | alpha, neutral (extra sub-lattice only)
+        int const q = iq == 0 ? -1 : iq == 1 ? +1 : iq == 2 ? +2 : 0;
+        double const mass = iq == 2 ? alpha_mass : iq == 3 ? 0.0 : electron_mass;
+        ParticleId const species = iq == 0   ? parts.eminus
+                                   : iq == 1 ? parts.eplus
+                                   : iq == 2 ? parts.alpha
+                                             : parts.neutral;
+        char const qtag = iq == 0 ? '-' : iq == 1 ? '+' : iq == 2 ? 'a' : '0';
         bool const zh = sf.st == St::zhelix;
+        if (extra && (zh || sf.fk == Fk::u0 || std::string(O.name) != "default"))
+            continue;  // ZHelix: q = 0 is outside its domain; B = 0 is charge independent
         // quick tier: checkerboard over (radius, options, charge); every radius, every option set
         // and both charges still occur with every geometry and every (stepper, field)
-        if (!thorough && (ir + io + iq) % 2)
+        if (!thorough && (ir + io + iq + (extra ? isf : 0)) % 2)
             continue;
+        if (extra)
+            R.tag(q ? "species:alpha(q=+2,m=3727)" : "species:neutral-in-field(q=0,m=0)");
         std::string bid = fmt("g=%s;sf=%s;q=%c;r=%zu;o=%s",
-                              G.name.c_str(), sf.name.c_str(), q < 0 ? '-' : '+', ir, O.name.c_str());
+                              G.name.c_str(), sf.name.c_str(), qtag, ir, O.name.c_str());
         if (R.replay() && R.replay_case().compare(0, bid.size(), bid) != 0)
             continue;
         if (only_filter && bid.find(only_filter) == std::string::npos)
@@ -1643,16 +1682,17 @@ int main(int argc, char** argv)
         // a surface (step 1 + 1 from y = 1 to the face y = 3): a measure-zero tie that a curved
         // path never produces and that belongs to C05 ("internal move rounded onto a surface").
         // The zero-field block therefore uses a generic length scale.
-        double const radius = ratios[ir] * scale * (sf.fk == Fk::u0 ? 0.9371 : 1.0);
+        // (a neutral particle moves on a straight line in any field: same generic scale)
+        double const radius = ratios[ir] * scale * (sf.fk == Fk::u0 || q == 0 ? 0.9371 : 1.0);
         // zero field: the momentum that would have this gyroradius in 1 T (radius is then only the
         // length scale of the requested steps)
-        LD const p_target = kappa * (Bn > 0 ? Bn : 1e4L) * radius;
+        // (gyroradius = p / (|q| kappa B); neutral: the momentum a unit charge would have)
+        LD const p_target = kappa * (Bn > 0 ? Bn : 1e4L) * radius * (q ? std::abs(q) : 1);
         // kinetic energy without cancellation: p^2 / (sqrt(p^2+m^2) + m)
         double const ke = double(p_target * p_target
-                                 / (sqrtl(p_target * p_target + LD(electron_mass) * electron_mass)
-                                    + electron_mass));
+                                 / (sqrtl(p_target * p_target + LD(mass) * mass) + mass));
         // momentum that corresponds to the *double* energy handed to the library
-        LD const p_mev = sqrtl(LD(ke) * (LD(ke) + 2 * LD(electron_mass)));
+        LD const p_mev = sqrtl(LD(ke) * (LD(ke) + 2 * LD(mass)));
 
         TolModel T{O.o.epsilon_rel_max, O.o.minimum_step, O.o.delta_intersection, O.o.delta_chord,
                    FieldDriverOptions::dchord_tol};
@@ -1846,7 +1886,7 @@ int main(int argc, char** argv)
                         }
                     }
                     auto particle = parts.view();
-                    particle = ParticleTrackView::Initializer_t{q < 0 ? parts.eminus : parts.eplus,
+                    particle = ParticleTrackView::Initializer_t{species,
                                                                 units::MevEnergy{ke}};
                     double const e_before = particle.energy().value();
                     double const p_before = particle.momentum().value();
